@@ -541,6 +541,37 @@ def job_dags(job):
     return rep
 
 
+def dags5_small(part, parts, max_edges=5):
+    """Labelled DAGs on 5 nodes with at most `max_edges` edges (the quick tier's share of the 5-node graphs: long alternative
+    paths - a -> j -> x -> k beside a -> k - need 5 nodes)."""
+    n = 5
+    pairs = [(i, j) for i in range(n) for j in range(n) if i != j]
+    idx = 0
+    for nedges in range(max_edges + 1):
+        for edges in itertools.combinations(pairs, nedges):
+            idx += 1
+            if idx % parts != part:
+                continue
+            rch = reach(n, edges)
+            if any((v, v) in rch for v in range(n)):
+                continue
+            yield list(edges)
+
+
+def job_dags5_small(job):
+    _, part, parts = job
+    DepGraph, _ = _imports()
+    rep = Report()
+    count = 0
+    for edges in dags5_small(part, parts):
+        count += 1
+        check_dag(rep, 5, edges, tuple(range(5)), DepGraph)
+        if count == 7:
+            rep.sample({'dag_nodes': 5, 'edges(node,on)': edges})
+    rep.counters['dags_n5_at_most_5_edges'] += count
+    return rep
+
+
 def dags5_part(part, parts):
     """Labelled DAGs on 5 nodes whose enumeration mask is in this part."""
     n = 5
@@ -743,7 +774,7 @@ def job_nested(job):
 
 # ---------------------------------------------------------------- driver
 def job(j):
-    return {'bfs': job_bfs, 'dags': job_dags, 'cyclic': job_cyclic, 'nested': job_nested}[j[0]](j)
+    return {'bfs': job_bfs, 'dags': job_dags, 'cyclic': job_cyclic, 'nested': job_nested, 'dags5small': job_dags5_small}[j[0]](j)
 
 
 def run(tier, seed):
@@ -756,6 +787,8 @@ def run(tier, seed):
         for part in range(4):
             jobs.append(('dags', 4, part, 4))
         jobs += [('cyclic', 1), ('cyclic', 2), ('cyclic', 3)]
+        for part in range(16):
+            jobs.append(('dags5small', part, 16))
         for part in range(6):
             jobs.append(('nested', False, part, 6))
     else:
